@@ -1,1 +1,122 @@
+(* JsMin/Properties.v — property theorems of C33 only; proofs live in Proofs.v. *)
 From JsMin Require Import Model Proofs.
+From Coq Require Import String.
+Open Scope N_scope.
+
+(* Full statement (NOT provable: JavaScript semantics are outside the model): for every semicolon-terminated
+   script the minified text is valid JavaScript with the same observable behaviour.  What is proved instead
+   is the token-level kernel below; behaviour is observed with node by the check. *)
+Definition C33_statement : Prop :=
+  forall (js_equiv : str -> str -> Prop) (src : str) (order : list str),
+    forall out, minify1 true order src = Some out -> js_equiv src out.
+
+(* Every token of the input is emitted unchanged, or it is an identifier of the renamable set that does not
+   follow '.' / '?.' and is replaced by its short name; in the shorthand case the original name stays as key.
+   Holds for every token list and every order in which Go's map iteration visits the locals. *)
+Theorem C33_only_locals_renamed :
+  forall fx order ts outs i t,
+    (forall x, In x order -> In x (renamable fx ts)) ->
+    rename_outs fx order ts = Some outs ->
+    nth_error ts i = Some t ->
+    exists o, nth_error outs i = Some o /\
+      (o = [t] \/
+       (fst t = tkIdent /\ In (snd t) (renamable fx ts) /\ after_dot (rev (firstn i ts)) = false /\
+        exists m short, build_map order 0 (idents_of ts) = Some m /\ lookup (snd t) m = Some short /\
+                        (o = [(tkIdent, short)] \/ o = [t; colon; (tkIdent, short)]))).
+Proof.
+  intros fx order ts outs i t Hsub H Hn.
+  destruct (rename_outs_spec fx order ts outs i t H Hn) as [o [Ho Hs]].
+  exists o. split; [exact Ho|].
+  destruct Hs as [->|[Hid [Hin [Hd Hex]]]]; [left; reflexivity|].
+  right. repeat split; auto. apply N.eqb_eq. exact Hid.
+Qed.
+
+(* names that may be renamed are never reserved words / protected globals, never bound at file scope, and
+   (repaired code) never used inside a template-literal substitution *)
+Theorem C33_renamable_not_protected :
+  forall fx ts x, In x (renamable fx ts) ->
+    reserved x = false /\ ~ In x (snd (collect_locals ts)) /\ (fx = true -> ~ In x (template_names ts)).
+Proof. exact renamable_spec. Qed.
+
+(* the rename map is injective and its short names are new *)
+Theorem C33_renaming_injective_fresh :
+  forall order ts m, build_map order 0 (idents_of ts) = Some m ->
+    map fst m = order /\ NoDup (map snd m) /\ (forall s, In s (map snd m) -> ~ In s (idents_of ts)).
+Proof.
+  intros order ts m H. apply build_map_spec in H as [H1 [H2 H3]]. auto.
+Qed.
+
+(* no capture: a renamed identifier never becomes equal to an identifier that survives unrenamed *)
+Theorem C33_no_capture :
+  forall order ts m x short t, build_map order 0 (idents_of ts) = Some m ->
+    lookup x m = Some short -> In t ts -> fst t = tkIdent -> snd t <> short.
+Proof.
+  intros order ts m x short t H Hl Hin Hk Heq.
+  apply build_map_spec in H as [_ [Hfr _]].
+  apply lookup_In in Hl as [_ Hs]. apply (Hfr short Hs).
+  unfold idents_of. subst short. apply in_map. apply filter_In. split; [exact Hin|].
+  unfold is_id. rewrite Hk. reflexivity.
+Qed.
+
+(* ---- separators: pairwise re-lexing over a finite alphabet (reflection) *)
+Definition mk (k : N) (l : list string) : list tok := map (fun s => (k, s2l s)) l.
+Definition alphabet : list tok :=
+  mk tkIdent ["a"; "x1"; "_$"; "in"; "of"; "return"; "typeof"; "e"; "n"; "let"]%string ++
+  mk tkNumber ["0"; "1"; "42"; "1.5"; ".5"; "1."; "0xff"; "0xe"; "1e3"; "10n"; "1_000"]%string ++
+  mk tkString ["'s'"; """d"""]%string ++ mk tkTemplate ["`t${a}`"]%string ++ mk tkRegex ["/r/g"; "/[/]/"]%string ++
+  mk tkPunct ["==="; "!=="; ">>>"; "**="; ">>="; "<<="; "&&="; "||="; "??="; "..."; "=="; "!="; ">="; "<="; "&&"; "||"; "++"; "--";
+              "+="; "-="; "*="; "/="; "%="; "**"; ">>"; "<<"; "??"; "=>"; "?.";
+              "+"; "-"; "*"; "/"; "%"; "="; "<"; ">"; "!"; "~"; "&"; "|"; "^"; "?"; ":"; ";"; ","; "."; "("; ")"; "["; "]"; "{"; "}"]%string.
+Definition wsp : tok := (tkWS, [32]).
+(* the lexer produces exactly [t1; blank; t2] from "v1 v2" *)
+Definition pair_producible (t1 t2 : tok) : bool := toks_eqb (tokenize (snd t1 ++ [32] ++ snd t2)) [t1; wsp; t2].
+Definition prefix_ops : list str := map s2l ["+"; "-"; "!"; "~"; "++"; "--"; "("; "["; "{"]%string.
+(* pairs excluded from the claim: (1) two operators of which the second cannot start an operand (no valid
+   script has them adjacent); (2) a number the lexer over-approximates ("1." or a hex literal ending in e)
+   on the left; (3) '.' or '?' before a number ('a . 5' is invalid; 'c ? .5 : x' stays valid JavaScript:
+   '?.' followed by a digit is not optional chaining) *)
+Definition excluded (t1 t2 : tok) : bool :=
+  ((fst t1 =? tkPunct) && (fst t2 =? tkPunct) && negb (mem (snd t2) prefix_ops)) ||
+  ((fst t1 =? tkNumber) && (match last_char (snd t1) with Some c => (c =? 46) || (c =? 101) || (c =? 69) | None => false end)) ||
+  ((fst t1 =? tkPunct) && (fst t2 =? tkNumber) && (str_eqb (snd t1) (s2l ".") || str_eqb (snd t1) (s2l "?"))).
+
+Theorem C33_emit_relex_pairs_partial :
+  forall t1 t2, In t1 alphabet -> In t2 alphabet -> pair_producible t1 t2 = true -> excluded t1 t2 = false ->
+    relex_ok true [t1; wsp; t2] = true.
+Proof.
+  assert (H : forallb (fun t1 => forallb (fun t2 =>
+                negb (pair_producible t1 t2) || excluded t1 t2 || relex_ok true [t1; wsp; t2]) alphabet) alphabet = true)
+    by (vm_compute; reflexivity).
+  intros t1 t2 H1 H2 Hp He. rewrite forallb_forall in H. specialize (H t1 H1).
+  rewrite forallb_forall in H. specialize (H t2 H2). rewrite Hp, He in H. exact H.
+Qed.
+
+(* ... and it does not hold for all producible pairs: the lexer's own view of "c ? .5" is not preserved
+   (valid JavaScript nevertheless), nor "0xe +1" *)
+Theorem C33_emit_relex_refuted :
+  exists ts, tokenize (s2l "c ? .5") = ts /\ relex_ok true ts = false.
+Proof. eexists. split; [reflexivity|]. vm_compute. reflexivity. Qed.
+
+(* the code before the repair: the token list of a valid script is emitted as text that lexes differently
+   (line comment, number swallowing a dot, HTML comment opener), declaration lists are rewritten as
+   shorthand properties, and a local used in a template substitution is renamed away from its use *)
+Theorem C33_old_refuted :
+  (exists ts, ts = tokenize (s2l "q / /2/.source") /\ relex_ok false ts = false /\ relex_ok true ts = true) /\
+  (exists ts, ts = tokenize (s2l "1 .toString()") /\ relex_ok false ts = false /\ relex_ok true ts = true) /\
+  (exists ts, ts = tokenize (s2l "a < !--b") /\ emit false ts = s2l "a<!--b" /\ emit true ts = s2l "a<! --b") /\
+  (exists ts, ts = tokenize (s2l "function f(){let a,b,c;}") /\
+     option_map (emit true) (rename_locals false (renamable false ts) ts) = Some (s2l "function f(){let d,b:e,g;}") /\
+     option_map (emit true) (rename_locals true (renamable true ts) ts) = Some (s2l "function f(){let d,e,g;}")) /\
+  (exists ts, ts = tokenize (s2l "function f(){let n=1;return `${n}`;}") /\
+     option_map (emit true) (rename_locals false (renamable false ts) ts) = Some (s2l "function f(){let a=1;return`${n}`;}") /\
+     renamable true ts = []).
+Proof. repeat split; eexists; (split; [reflexivity|]); vm_compute; repeat split; reflexivity. Qed.
+
+(* non-vacuity *)
+Example C33_nonvacuous :
+  let ts := strip_comments (tokenize ex_src) in
+  renamable true ts = [s2l "q"] /\ snd (collect_locals ts) = [s2l "g"; s2l "f"] /\ template_names ts = [s2l "$"; s2l "p"] /\
+  option_map (emit true) (rename_locals true (renamable true ts) ts) =
+    Some (s2l "var g=1;function f(p){let a=g+p;return{q:a,k:`${p}`}.k;}") /\
+  List.length (filter (fun p => pair_producible (fst p) (snd p) && negb (excluded (fst p) (snd p))) (list_prod alphabet alphabet)) = 3541%nat.
+Proof. vm_compute. repeat split; reflexivity. Qed.
